@@ -19,6 +19,7 @@ MODES_INFO = {
     "super": "supercells: random HNFs of index 2..4 (quick) / 2..6 (thorough) and of index 5..12, plus the skew family [[1,0,0],[1,1,0],[0,2,k]], of crystals from random Hall settings, optionally re-based/shifted/rotated",
     "noise": "undistorted crystals and noisy twins (atoms displaced uniformly in a ball of radius 5% symprec, symmetric lattice strain of the same relative size) at the same symprec",
     "hallreq": "Setting::HallNumber(h) for every h in 1..=530 on a crystal generated in that setting (own and re-described cell), on a crystal of another type, and for out-of-range Hall numbers",
+    "meta": "metamorphic pairs: a base crystal and a random word of 1-5 re-descriptions of it (re-basing, origin shift, rigid rotation, permutation, added lattice vectors, scaling with symprec, supercell, mirror image)",
     "wyckoff": "crystals with atoms placed on tabulated Wyckoff positions (every position of every Hall setting over the tiers) plus a general-position species, own and re-described cells",
 }
 
@@ -101,15 +102,15 @@ def short_case(line):
             "number": seg(line, "number"), "hallnum": seg(line, "hallnum"), "nops": seg(line, "nops")}
 
 
-def run_property(pid, tier, seed, modes, props, level_text_keys, nontrivial, extra=None, trusted=None):
+def run_property(pid, tier, seed, modes, props, level_text_keys, nontrivial, extra=None, trusted=None, level="proof"):
     """Generic run: `modes` list of mode names; `props` list of (module, relpath); `nontrivial(parsed, line)`
     -> bool; `extra(run, per_mode)` may add clause failures computed across cases (twins)."""
-    run = vlib.Run(pid, tier, seed, "proof")
+    run = vlib.Run(pid, tier, seed, level)
     cov = run.coverage
     ok, err = vlib.build_harness()
     if not ok:
         run.violation("harness_build.txt", "harness/moyo failed to build with hooks on:\n" + err, no_input=True)
-        cov.update({"obligations": 0, "discharged": 0, "checker_cmd": "lake build", "trusted_base": []})
+        cov.update({"obligations": 0, "discharged": 0, "checker_cmd": "lake build", "trusted_base": [], "explanation": "harness build failed"})
         return run.finish()
     okt, terr = vlib.translate()
     ob = vlib.proof_obligations(props)
